@@ -316,7 +316,7 @@ func runC08(c *Ctx) {
 	r.Rule = "shared compiled programs (44 hand-picked sources covering regexp / folded slice / lookup-set / call-descriptor / ConstExpr constants + generated sources) x 8 option sets, shared read-only struct and map environments; N goroutines x M operations (60% expr.Run on a shared program, 30% expr.Compile with the shared option values, 10% expr.Eval), executed by a child process built with -race; every result compared with the sequential result; non-trivial = program compiled (has constants); distinct by (option set, source)"
 	n, m, nGen, rounds := 8, 250, 30, 1
 	if c.Thorough() {
-		n, m, nGen, rounds = 32, 4000, 400, 4
+		n, m, nGen, rounds = 32, 6000, 400, 8
 	}
 	replaySeed := int64(0)
 	if c.Replay != "" {
